@@ -67,7 +67,13 @@ for v in d["violations"]:
         else:
             unconfirmed.append(v)
         continue
-    r = subprocess.run([symx, "memreplay", str(s["cell_bytes"]), str(s["size"]), str(s["offset"]), str(s["a"]), str(s["b"])], capture_output=True, text=True)
+    mode = []
+    if v["lemma"].startswith("L4 check(i)"):
+        mode = ["check"]
+    elif v["lemma"].startswith("L4"):
+        mode = ["ptr"]
+    s["replay"] = "symx memreplay %d %d %d %d %d%s" % (s["cell_bytes"], s["size"], s["offset"], s["a"], s["b"], "".join(" " + m for m in mode))
+    r = subprocess.run([symx, "memreplay", str(s["cell_bytes"]), str(s["size"]), str(s["offset"]), str(s["a"]), str(s["b"])] + mode, capture_output=True, text=True)
     if r.returncode == 1:
         confirmed.append((v, s, r.stdout.strip()))
     else:
@@ -86,7 +92,7 @@ for v, s, msg in confirmed:
         continue
     path = f"{ROOT}/replays/{prop}-geometry-{len(seen)}.json"
     json.dump({"kind": "memreplay", "property": prop, "lemma": v["lemma"], **s,
-               "replay": f"symx memreplay {s['cell_bytes']} {s['size']} {s['offset']} {s['a']} {s['b']}", "native": msg}, open(path, "w"), indent=1)
+               "native": msg}, open(path, "w"), indent=1)
     print(f"VIOLATION property={prop} replay={path}")
     print(f"  geometry lemma `{v['lemma']}` ({s['cell_bytes']}-byte cells): {msg}")
     rc = 1
